@@ -34,6 +34,18 @@ def pykey(key: List[dict]):
     return tuple(out)
 
 
+def linear_list(idx):
+    """a list of linear indices is an integer vector, a list of Python integers or a list of numpy integers (what an
+    index computation leaves): presentations of the same key, rotated with the array layout"""
+    import bind
+    lay = bind.get_layout()
+    if lay == "swapped" and len(idx):
+        return [np.int64(i) for i in idx]
+    if lay == "grown" and len(idx):
+        return [int(i) for i in idx]
+    return np.array(idx, dtype=int)
+
+
 def present_key(key: tuple, shape) -> tuple:
     """a slice bound inside the current extent can equally be counted from the end (lo - n, hi - n): a presentation of
     the same key, rotated with the array layout"""
@@ -165,7 +177,7 @@ def do_write(X, sparse: bool, ev: dict, k: int):
             # one-way sparse tensor: subscripts and linear indices coincide
             X[np.array(idx, dtype=int)[:, None]] = val
         else:
-            X[np.array(idx, dtype=int)] = val
+            X[linear_list(idx)] = val
         return "ok"
     raise ValueError(op)
 
@@ -190,7 +202,7 @@ def do_read(X, sparse: bool, ev: dict):
     if op == "get_linear":
         f = a["form"]
         if f == "list":
-            return X[np.array(a["idx"], dtype=int)]
+            return X[linear_list(a["idx"])]
         if f == "slice":
             import bind
             n = int(np.prod(X.shape))
